@@ -325,41 +325,80 @@ func ruleShorthandTwins(c *core.Ctx) {
 			}
 		}
 	}
-	// (c) optional tail prepends the null case
+	// (c) optional tail puts the null case first
 	_, ad, _ := c.Func("pkg/dsl", "applyTypeTail")
 	found := false
-	ast.Inspect(ad.Body, func(n ast.Node) bool {
-		ifs, ok := n.(*ast.IfStmt)
-		if !ok || !strings.HasSuffix(types.ExprString(ifs.Cond), ".Optional") {
-			return true
+	// isNullCase: a TypeCase literal (or &literal) without a Type, possibly through an explaining local
+	var isNullCase func(e ast.Expr) bool
+	isNullCase = func(e ast.Expr) bool {
+		e = ast.Unparen(core.InlineLocals(info, ad.Body, e))
+		for {
+			if pe, ok := e.(*ast.ParenExpr); ok {
+				e = pe.X
+				continue
+			}
+			break
 		}
-		for _, s := range ifs.Body.List {
-			as, ok := s.(*ast.AssignStmt)
-			if !ok || len(as.Rhs) != 1 {
-				continue
+		if u, ok := e.(*ast.UnaryExpr); ok && u.Op == token.AND {
+			e = ast.Unparen(u.X)
+		}
+		cl, ok := e.(*ast.CompositeLit)
+		if !ok {
+			return false
+		}
+		if nt := core.NamedOf(info.TypeOf(cl)); nt == nil || nt.Obj().Name() != "TypeCase" {
+			return false
+		}
+		for _, el := range cl.Elts {
+			if kv, ok := el.(*ast.KeyValueExpr); ok && types.ExprString(kv.Key) == "Type" {
+				return false
 			}
-			call, ok := as.Rhs[0].(*ast.CallExpr)
-			if !ok || len(call.Args) != 2 || types.ExprString(call.Fun) != "append" {
-				continue
-			}
-			found = true
-			first, isLit := call.Args[0].(*ast.CompositeLit)
-			nullFirst := false
-			if isLit && len(first.Elts) == 1 {
-				inner := first.Elts[0]
-				if u, ok := inner.(*ast.UnaryExpr); ok {
-					inner = u.X
+		}
+		return true
+	}
+	checkAssign := func(as *ast.AssignStmt) {
+		if len(as.Rhs) != 1 || len(as.Lhs) != 1 {
+			return
+		}
+		if se, ok := as.Lhs[0].(*ast.SelectorExpr); !ok || se.Sel.Name != "Cases" {
+			return
+		}
+		rhs := ast.Unparen(as.Rhs[0])
+		nullFirst := false
+		switch x := rhs.(type) {
+		case *ast.CallExpr: // append(TypeCases{null}, cases...)
+			if types.ExprString(x.Fun) == "append" && len(x.Args) == 2 && x.Ellipsis.IsValid() {
+				if first, ok := x.Args[0].(*ast.CompositeLit); ok && len(first.Elts) == 1 {
+					nullFirst = isNullCase(first.Elts[0])
 				}
-				if cl, ok := inner.(*ast.CompositeLit); ok {
-					nullFirst = true
-					for _, e := range cl.Elts {
-						if kv, ok := e.(*ast.KeyValueExpr); ok && types.ExprString(kv.Key) == "Type" {
-							nullFirst = false
-						}
+			}
+		case *ast.CompositeLit: // TypeCases{null, inner}
+			if len(x.Elts) == 2 {
+				nullFirst = isNullCase(x.Elts[0]) && !isNullCase(x.Elts[1])
+			}
+		}
+		found = true
+		c.Check(nullFirst, rule, "applyTypeTail/optional: null case first", as.Pos(), "Cases = [null case, T]", "`T?` does not build [null, T] (null case first), which is what the expanded spelling and every back end expect")
+	}
+	isOptionalCond := func(e ast.Expr) bool { return strings.HasSuffix(types.ExprString(ast.Unparen(e)), ".Optional") }
+	ast.Inspect(ad.Body, func(n ast.Node) bool {
+		switch x := n.(type) {
+		case *ast.IfStmt:
+			if isOptionalCond(x.Cond) {
+				for _, s := range x.Body.List {
+					if as, ok := s.(*ast.AssignStmt); ok {
+						checkAssign(as)
 					}
 				}
 			}
-			c.Check(nullFirst && call.Ellipsis.IsValid(), rule, "applyTypeTail/optional: null case first", as.Pos(), "Cases = append({null case}, Cases...)", "`T?` does not build [null, T] (null case first), which is what the expanded spelling and every back end expect")
+		case *ast.CaseClause: // tagless switch { case tail.Optional: ... }
+			if len(x.List) == 1 && isOptionalCond(x.List[0]) {
+				for _, s := range x.Body {
+					if as, ok := s.(*ast.AssignStmt); ok {
+						checkAssign(as)
+					}
+				}
+			}
 		}
 		return true
 	})
@@ -379,83 +418,166 @@ func ruleDocCommentSuffix(c *core.Ctx) {
 	}
 	info := p.TypesInfo
 	key := "pkg/dsl.normalizeComment/trailing block"
-	// the loop that tests HasPrefix(lines[i], "#")
-	var loop ast.Stmt
-	ast.Inspect(d.Body, func(n ast.Node) bool {
-		var body *ast.BlockStmt
-		switch x := n.(type) {
-		case *ast.ForStmt:
-			body = x.Body
-		case *ast.RangeStmt:
-			body = x.Body
-		default:
-			return true
+	// A backward scan: an integer variable v that is only ever decremented, starting at len(lines)-1-c0,
+	// with the '#'-prefix test applied to lines[v+c0] deciding whether the scan goes on, and the result
+	// being lines[v+c0+1:] — the maximal run of '#' lines at the end. (c0 = 0 for `i := len-1 … lines[i]
+	// … lines[i+1:]`, c0 = -1 for `k := len … lines[k-1] … lines[k:]`.)
+	type scan struct {
+		v    types.Object
+		c0   int
+		loop ast.Stmt
+	}
+	var scans []scan
+	offsetOf := func(e ast.Expr) (types.Object, int, bool) { // ident, ident+k, ident-k
+		e = ast.Unparen(e)
+		if id, ok := e.(*ast.Ident); ok {
+			return info.Uses[id], 0, info.Uses[id] != nil
 		}
-		hasTest, hasBreak := false, false
-		ast.Inspect(body, func(m ast.Node) bool {
-			switch y := m.(type) {
-			case *ast.CallExpr:
+		if be, ok := e.(*ast.BinaryExpr); ok && (be.Op == token.ADD || be.Op == token.SUB) {
+			if id, ok := ast.Unparen(be.X).(*ast.Ident); ok {
+				if k, isK := constInt(info, be.Y); isK {
+					if be.Op == token.SUB {
+						k = -k
+					}
+					return info.Uses[id], k, info.Uses[id] != nil
+				}
+			}
+		}
+		return nil, 0, false
+	}
+	prefixTestIndex := func(n ast.Node) (types.Object, int, bool) { // HasPrefix(lines[v+c0], "#") inside n
+		var ro types.Object
+		rc, found := 0, false
+		ast.Inspect(n, func(m ast.Node) bool {
+			if y, ok := m.(*ast.CallExpr); ok {
 				if f := core.Callee(info, y); f != nil && core.FullName(f) == "strings.HasPrefix" && len(y.Args) == 2 {
 					if tv := info.Types[y.Args[1]]; tv.Value != nil && constant.StringVal(tv.Value) == "#" {
-						hasTest = true
+						if ix, ok := ast.Unparen(y.Args[0]).(*ast.IndexExpr); ok {
+							if o, k, ok := offsetOf(ix.Index); ok {
+								ro, rc, found = o, k, true
+							}
+						}
 					}
-				}
-			case *ast.BranchStmt:
-				if y.Tok == token.BREAK {
-					hasBreak = true
 				}
 			}
 			return true
 		})
-		if hasTest && hasBreak && loop == nil {
-			loop = n.(ast.Stmt)
+		return ro, rc, found
+	}
+	ast.Inspect(d.Body, func(n ast.Node) bool {
+		fs, ok := n.(*ast.ForStmt)
+		if !ok {
+			return true
+		}
+		// the '#' test: in the loop condition (scan while it holds) or in the body with a break
+		var o types.Object
+		c0 := 0
+		found := false
+		if fs.Cond != nil {
+			o, c0, found = prefixTestIndex(fs.Cond)
+		}
+		if !found {
+			hasBreak := false
+			ast.Inspect(fs.Body, func(m ast.Node) bool {
+				if b, ok := m.(*ast.BranchStmt); ok && b.Tok == token.BREAK {
+					hasBreak = true
+				}
+				return true
+			})
+			if hasBreak {
+				o, c0, found = prefixTestIndex(fs.Body)
+			}
+		}
+		if !found {
+			return true
+		}
+		scans = append(scans, scan{o, c0, fs})
+		return true
+	})
+	// a range loop with the test is a forward scan
+	forward := false
+	ast.Inspect(d.Body, func(n ast.Node) bool {
+		if rs, ok := n.(*ast.RangeStmt); ok {
+			hasBreak := false
+			ast.Inspect(rs.Body, func(m ast.Node) bool {
+				if b, ok := m.(*ast.BranchStmt); ok && b.Tok == token.BREAK {
+					hasBreak = true
+				}
+				return true
+			})
+			if _, _, found := prefixTestIndex(rs.Body); found && hasBreak {
+				forward = true
+			}
+			if id, ok := rs.Value.(*ast.Ident); ok && hasBreak { // HasPrefix(line, "#") on the range value
+				ast.Inspect(rs.Body, func(m ast.Node) bool {
+					if y, ok := m.(*ast.CallExpr); ok && len(y.Args) == 2 {
+						if f := core.Callee(info, y); f != nil && core.FullName(f) == "strings.HasPrefix" && identObj(info, y.Args[0]) == info.Defs[id] {
+							forward = true
+						}
+					}
+					return true
+				})
+			}
 		}
 		return true
 	})
-	if loop == nil {
-		c.Undecided(rule, key, d.Pos(), "no loop that stops at the first line without the '#' prefix: shape not recognised")
+	if forward {
+		c.Bad(rule, key, d.Pos(), "the scan for the first non-'#' line runs forwards: with two or more blank-line-separated comment blocks the free-standing ones are kept as documentation (models that differ only in such comments generate different code)")
 		return
 	}
-	fs, isFor := loop.(*ast.ForStmt)
-	backwards := false
-	var idx types.Object
-	if isFor && fs.Post != nil {
-		if inc, ok := fs.Post.(*ast.IncDecStmt); ok && inc.Tok == token.DEC {
-			if id, ok := inc.X.(*ast.Ident); ok {
-				idx = info.Uses[id]
-				backwards = true
-			}
-		}
-	}
-	if !backwards {
-		c.Bad(rule, key, loop.Pos(), "the scan for the first non-'#' line runs forwards: with two or more blank-line-separated comment blocks the free-standing ones are kept as documentation (models that differ only in such comments generate different code)")
+	if len(scans) != 1 {
+		c.Undecided(rule, key, d.Pos(), "no single loop that scans for the '#' prefix found: shape not recognised")
 		return
 	}
-	// start at len(lines)-1: the definition of the index
-	startsAtEnd := false
+	sc := scans[0]
+	// v only decreases: its writes are the initialisation, v-- / v -= k / v = v - k
+	decOnly, initOK := true, false
 	ast.Inspect(d.Body, func(n ast.Node) bool {
-		if as, ok := n.(*ast.AssignStmt); ok && len(as.Lhs) == 1 && len(as.Rhs) == 1 {
-			if id, ok := as.Lhs[0].(*ast.Ident); ok && (info.Defs[id] == idx || info.Uses[id] == idx) {
-				if be, ok := as.Rhs[0].(*ast.BinaryExpr); ok && be.Op == token.SUB && strings.HasPrefix(types.ExprString(be.X), "len(") && types.ExprString(be.Y) == "1" {
-					startsAtEnd = true
+		switch x := n.(type) {
+		case *ast.IncDecStmt:
+			if identObj(info, x.X) == sc.v && x.Tok != token.DEC {
+				decOnly = false
+			}
+		case *ast.AssignStmt:
+			for i, l := range x.Lhs {
+				if identObj(info, l) != sc.v {
+					continue
+				}
+				if x.Tok == token.DEFINE || (x.Tok == token.ASSIGN && x.Pos() < sc.loop.Pos()) {
+					// initial value len(lines) - 1 - c0
+					if i < len(x.Rhs) {
+						rhs := ast.Unparen(x.Rhs[i])
+						base, k := rhs, 0
+						if be, ok := rhs.(*ast.BinaryExpr); ok && be.Op == token.SUB {
+							if kk, isK := constInt(info, be.Y); isK {
+								base, k = ast.Unparen(be.X), kk
+							}
+						}
+						if strings.HasPrefix(types.ExprString(base), "len(") && k == 1+sc.c0 {
+							initOK = true
+						}
+					}
+					continue
+				}
+				if x.Tok != token.SUB_ASSIGN {
+					decOnly = false
 				}
 			}
 		}
 		return true
 	})
-	// the slice lines[i+1:] after the loop
+	// the slice after the loop: lines[v + c0 + 1 :]
 	sliced := false
 	ast.Inspect(d.Body, func(n ast.Node) bool {
-		if se, ok := n.(*ast.SliceExpr); ok && se.Pos() > loop.End() && se.High == nil {
-			if be, ok := se.Low.(*ast.BinaryExpr); ok && be.Op == token.ADD && types.ExprString(be.Y) == "1" {
-				if id, ok := be.X.(*ast.Ident); ok && info.Uses[id] == idx {
-					sliced = true
-				}
+		if se, ok := n.(*ast.SliceExpr); ok && se.Pos() > sc.loop.End() && se.High == nil && se.Low != nil {
+			if o, k, ok := offsetOf(se.Low); ok && o == sc.v && k == sc.c0+1 {
+				sliced = true
 			}
 		}
 		return true
 	})
-	c.Check(startsAtEnd && sliced, rule, key, loop.Pos(), "backward scan from len(lines)-1, result lines[i+1:]", "the backward scan does not start at the last line or the result is not lines[i+1:]")
+	c.Check(decOnly && initOK && sliced, rule, key, sc.loop.Pos(), "backward scan from the last line; the result starts right after the last line that is not a '#' line",
+		"the scan does not start at the last line, does not only move backwards, or the result does not start right behind the line the scan stopped at")
 	// every producer of a Comment field passes through normalizeComment
 	n := 0
 	for _, fd := range c.AllDecls() {
